@@ -6,9 +6,9 @@ import os, random, re
 from vlib import core
 from vlib.checks import ipclifegen as gen
 
-ALL = [1, 2, 3, 4, 5, 6]
+ALL = [1, 2, 3, 4, 5, 6, 7]
 # model-level names: 5 (send on a torn-down socket connection) is the same model defect as 4 (use of a torn-down transport)
-MODEL = {1: 1, 2: 2, 3: 3, 4: 4, 5: 4, 6: 6}
+MODEL = {1: 1, 2: 2, 3: 3, 4: 4, 5: 4, 6: 6, 7: 7}
 WHAT = {
     1: "qb_ipcs_disconnect (also via qb_ipcs_destroy or the dispatcher) on a connection that is already SHUTTING_DOWN runs "
        "connection_closed again although it returned 0 (or while its re-run job is queued) and drops the initial reference a second "
@@ -28,6 +28,10 @@ WHAT = {
     6: "qb_ipcs_destroy keeps a pointer to the next list element while it disconnects the current one: a connection_closed callback "
        "that releases or disconnects that next connection leaves it dangling (heap-use-after-free in qb_ipcs_destroy) "
        "(history: created1{Ref}; closed2{Unref 1}; client 1 leaves; Step; SvcDestroy)",
+    7: "socket transport: qb_ipcs_request_rate_limit re-registers (dispatch_mod) the closed descriptor numbers of a listed "
+       "connection that is SHUTTING_DOWN (closed asked for a retry, or a reference is held); once a number is reused the new "
+       "owner's events are dispatched to the dead connection, which is disconnected again and freed under its queued job "
+       "(heap-use-after-free in qb_ipcs_disconnect, ipcs.c:602) (history: ClosedRet 1 -1 1 1; client leaves; new clients; RateLimit 0)",
 }
 CON = ["CConnect 0", "Step", "Step", "CContinue 0"]
 CON2 = CON + ["CConnect 1", "Step", "Step", "CContinue 1"]
@@ -39,6 +43,7 @@ REPRO = {
     5: (1, ["Body msg 1 0 Resp 2", "Body created 2 0 Disconnect 2 ; Ref self", "CConnect 2", "Step", "Step", "CContinue 2",
             "Fork 1 1 0", "Wait 1", "CConnect 0", "CSend 2 2", "Step"]),
     6: (0, ["Body created 1 0 Ref self", "Body closed 2 0 Unref 1"] + CON2 + ["CDisc 0", "Step", "SvcDestroy"]),
+    7: (1, ["ClosedRet 1 -1 1 1", "CConnect 3", "Step", "Step", "CDisc 3", "Step", "Fork 1 1 2", "CConnect 3", "Step", "RateLimit 0"]),
 }
 INVS = ["TypeOK", "WordOK", "ClosedOnlyIfCreated", "DestroyedAtZero", "RetryKeepsRef", "NoZombie", "Conforms",
         "NoUseAfterFree", "NoTornUse"]
@@ -128,6 +133,8 @@ def run(ctx):
     progs = gen.directed()
     nd = len(progs)
     n = 5000 if q else 80000
+    progs += [["Svc %d" % REPRO[k][0]] + REPRO[k][1] for k in ALL if k not in still]      # repaired: ordinary scenarios now
+    nd = len(progs)
     progs += [gen.program(rng) for _ in range(n)]
     ctx.sample({"program": progs[4]})
     ctx.sample({"program": progs[nd]})
